@@ -288,6 +288,9 @@ func TestC16(t *testing.T) {
 	workers := 12
 	r.Set("worker_processes", workers)
 	runPool(r, tasks, workers, 5*time.Minute)
+	if bls != nil {
+		bls.rerunFailedBatches(r, workers)
+	}
 	for _, j := range judges {
 		j.finish()
 	}
